@@ -716,8 +716,11 @@ def linspace(start, stop, num, decimals=18):
     if num > 1:
         div = num - 1
         delta = stop - start
-        return [float(("{:." + str(decimals) + "f}").format((start + (float(x) * float(delta) / float(div)))))
+        vals = [float(("{:." + str(decimals) + "f}").format((start + (float(x) * float(delta) / float(div)))))
                 for x in range(num)]
+        # The end points are returned as they are; rounding them could move them outside of the interval
+        vals[0], vals[-1] = start, stop
+        return vals
     return [float(("{:." + str(decimals) + "f}").format(start))]
 
 
